@@ -194,7 +194,7 @@ __CPROVER_ensures(IMPLIES(RPW_CRC_DUE(f),
 #define RPW_PF_RAW(fb) ((fb)->data + sizeof(RPFrame))
 #define RPW_PF_N(fb) ((fb)->used - sizeof(RPFrame))
 #define RPW_PF_HLEN(fb) SPEC_HLEN(SPEC_F_OPTS(RPW_PF_RAW(fb)))
-#define REGP_PF_MAX (12u + CRC_NMAX)
+#define REGP_PF_MAX (16u + CRC_NMAX)
 /* the ghost trace describes the checksum of the octets behind the header the
  * option bits announce (established by the caller; a trace exists for every
  * content) */
@@ -211,6 +211,7 @@ __CPROVER_requires(__CPROVER_r_ok(framebuf, sizeof(ByteBuffer)))
 __CPROVER_requires(framebuf->data != NULL && framebuf->used >= sizeof(RPFrame) && framebuf->used <= framebuf->size
     && __CPROVER_rw_ok(framebuf->data, framebuf->used) && !__CPROVER_same_object(framebuf, framebuf->data))
 __CPROVER_requires(RPW_PF_N(framebuf) <= REGP_PF_MAX
+    && IMPLIES(RPW_PF_N(framebuf) >= 12u, RPW_PF_N(framebuf) <= RPW_PF_HLEN(framebuf) + CRC_NMAX)
     && __CPROVER_r_ok(g_crcT, (REGP_PF_MAX + 1u) * sizeof(uint16_t))
     && !__CPROVER_same_object(g_crcT, framebuf->data))
 __CPROVER_requires(IMPLIES(RPW_PF_N(framebuf) >= 12u, REGP_PF_TRACE_OK(framebuf)))
